@@ -11,7 +11,9 @@ NAMES = f"{C.LEAN}/Az65/Gen/Names.lean"
 
 DEGENERATE = [
     "@defn X, X\n@db X\n", "@defn A, B\n@defn B, A\n@db A\n", "@defl A, B + 1\n@defl B, C + 1\n@defl C, A + 1\n@dw A\n",
-    "@db 1 / 0\n", "@db 1 % 0\n", "@dw X / Y\n@defn X, 5\n@defn Y, 0\n", "@db -($80000000)\n", "@dw $80000000 / -1\n",
+    "@db 1 / 0\n", "@db 1 % 0\n", "@db $80000000 % -1\n", "@db $80000000 % $ffffffff\n", "@dw (0 - $7fffffff - 1) % (0 - 1)\n", "@db X % Y\n@defn X, $80000000\n@defn Y, -1\n",
+    "@db X / Y\n@defn X, $80000000\n@defn Y, -1\n", "@db $80000000 * -1\n", "@db -$80000000\n", "@db $7fffffff + 1\n", "@db 0 - $80000000\n", "@db 1 << 32\n", "@db 1 << -1\n", "@db 1 >> 99\n", "@db 1 >>> -5\n",
+    '@segment "DATA"\n', '@segment "code "\n', "@segment 5\n", "@segment lab\n", '@segment ""\n', "@dw X / Y\n@defn X, 5\n@defn Y, 0\n", "@db -($80000000)\n", "@dw $80000000 / -1\n",
     "@db 1 = 2\n", "=\n", "@db 1 =\n", ":\n", ".:\n", "a.b.c:\n", ".\n", "@\n", "@db\n", "@db ,\n", "@db 1,\n",
     "@string }\n", "@label }\n", "@each T, }\n", "@macro M, 1, P\n@endmacro\nM }\n", "@db {\n", "@string {\n", "@each T, {\n", "}\n", "{\n",
     "@endmacro\n", "@endif\n", "@endeach\n", "@endstruct\n", "@endmeta\n", "@if 0\n", "@if 1\n", "@macro M, 0\n", "@struct S\n", "@each T, {1}\n",
